@@ -147,34 +147,11 @@ func DumpIDL(ast *parser.Thrift) (string, error) {
 			}
 			sb.writeString(fmt.Sprintf("%s %s", typeName(f.FunctionType), f.Name))
 			sb.writeString("(")
-			for i, ag := range f.Arguments {
-				required := ""
-				if ag.Requiredness.IsOptional() {
-					required = "optional "
-				} else if ag.Requiredness.IsRequired() {
-					required = "required "
-				}
-				sb.writeString(fmt.Sprintf("%d: %s%s %s", ag.ID, required, typeName(ag.Type), ag.Name))
-				if i != len(f.Arguments)-1 {
-					sb.writeString(", ")
-				}
-			}
+			printFunctionFields(&sb, f.Arguments)
 			sb.writeString(")")
 			if len(f.Throws) > 0 {
-				sb.writeString("throws ")
-				sb.writeString("(")
-				for i, th := range f.Throws {
-					required := ""
-					if th.Requiredness.IsOptional() {
-						required = "optional "
-					} else if th.Requiredness.IsRequired() {
-						required = "required "
-					}
-					sb.writeString(fmt.Sprintf("%d: %s%s %s", th.ID, required, typeName(th.Type), th.Name))
-					if i != len(f.Arguments)-1 {
-						sb.writeString(", ")
-					}
-				}
+				sb.writeString(" throws (")
+				printFunctionFields(&sb, f.Throws)
 				sb.writeString(")")
 			}
 			printAnnotation(&sb, f.Annotations)
@@ -326,6 +303,28 @@ func printConstTypedValue(sb *stringBuilder, ctv *parser.ConstTypedValue) {
 		}
 		sb.writeString("\n")
 		sb.writeString("}")
+	}
+}
+
+// printFunctionFields writes an argument or throws list like struct fields (default value and annotations
+// included), separated by ", " according to the length of the list itself.
+func printFunctionFields(sb *stringBuilder, fields []*parser.Field) {
+	for i, f := range fields {
+		required := ""
+		if f.Requiredness.IsOptional() {
+			required = "optional "
+		} else if f.Requiredness.IsRequired() {
+			required = "required "
+		}
+		sb.writeString(fmt.Sprintf("%d: %s%s %s", f.ID, required, typeName(f.Type), f.Name))
+		if f.Default != nil {
+			sb.writeString(" = ")
+			printConstTypedValue(sb, f.Default.TypedValue)
+		}
+		printAnnotation(sb, f.Annotations)
+		if i != len(fields)-1 {
+			sb.writeString(", ")
+		}
 	}
 }
 
